@@ -1166,11 +1166,128 @@ func ruleNoInject(p *Program, r *Reporter) {
 					if c, ok := cc.Args[1].(*ssa.Const); ok {
 						what = " (" + c.Value.ExactString() + ")"
 					}
-					r.Fail(key, p.Pos(ins.Pos()), "library code other than an opcode handler or SetVariable stores a variable"+what+" in the namespace scripts read: the script can observe it, so behaviour depends on something other than the script, the object and the host's variables")
+					if ok, why := temporaryVariable(p, fn, ins, cc); ok {
+						r.OkNT(key, p.Pos(ins.Pos()), why)
+						continue
+					}
+					r.Fail(key, p.Pos(ins.Pos()), "library code other than an opcode handler or SetVariable stores a variable"+what+" in the namespace scripts read and does not remove it again: the script can observe it, so behaviour depends on something other than the script, the object and the host's variables")
 				}
 			}
 		}
 	}
+}
+
+// temporaryVariable: the variable stored at `set` (constant name) is removed
+// again on every path to a return of fn, except on paths where a lookup made
+// before the store showed that the host had set it already.
+func temporaryVariable(p *Program, fn *ssa.Function, set ssa.Instruction, cc *ssa.CallCommon) (bool, string) {
+	name, ok := cc.Args[1].(*ssa.Const)
+	if !ok || name.Value == nil {
+		return false, ""
+	}
+	var unset, get *ssa.Function
+	for _, f := range p.LibFns {
+		if !recvNamed(f, "environment", "Environment") || f.Parent() != nil {
+			continue
+		}
+		ps, rs := sigParams(f), sigResults(f)
+		if len(ps) == 1 && isStringType(ps[0]) && len(rs) == 0 {
+			// removes from the global map
+			for _, b := range f.Blocks {
+				for _, ins := range b.Instrs {
+					if c, ok := ins.(*ssa.Call); ok {
+						if bi, ok := c.Call.Value.(*ssa.Builtin); ok && bi.Name() == "delete" {
+							unset = f
+						}
+					}
+				}
+			}
+		}
+		if f.Name() == "Get" {
+			get = f
+		}
+	}
+	if unset == nil {
+		return false, ""
+	}
+	sameName := func(v ssa.Value) bool {
+		c, ok := v.(*ssa.Const)
+		return ok && c.Value != nil && c.Value.ExactString() == name.Value.ExactString()
+	}
+	// "the host had set it": ok-result of Get(name) evaluated before the store
+	hostHad := map[ssa.Value]bool{}
+	for _, c := range callsTo(fn, get) {
+		call, isCall := c.(*ssa.Call)
+		if !isCall || !sameName(call.Call.Args[1]) || !dominatesInstr(call, set) {
+			continue
+		}
+		for _, ref := range liveRefs(call) {
+			if ex, ok := ref.(*ssa.Extract); ok && ex.Index == 1 {
+				hostHad[ex] = true
+			}
+		}
+	}
+	// conditions known to hold at the store
+	known := map[ssa.Value]bool{}
+	for d := set.Block(); d.Idom() != nil; d = d.Idom() {
+		if iff, ok := terminator(d.Idom()).(*ssa.If); ok && d.Idom().Succs[0] == d && len(d.Preds) == 1 {
+			known[iff.Cond] = true
+		}
+	}
+	leak := false
+	seen := map[*ssa.BasicBlock]bool{}
+	var walk func(b *ssa.BasicBlock, i int)
+	walk = func(b *ssa.BasicBlock, i int) {
+		for ; i < len(b.Instrs); i++ {
+			switch x := b.Instrs[i].(type) {
+			case *ssa.Call:
+				if x.Call.StaticCallee() == unset && sameName(x.Call.Args[1]) {
+					return
+				}
+			case *ssa.Return:
+				leak = true
+				return
+			case *ssa.If:
+				cond, neg := x.Cond, false
+				if u, ok := cond.(*ssa.UnOp); ok && u.Op == token.NOT {
+					cond, neg = u.X, true
+				}
+				next := b.Succs
+				if known[cond] {
+					if neg {
+						next = b.Succs[1:]
+					} else {
+						next = b.Succs[:1]
+					}
+				} else if hostHad[cond] {
+					// on the "host had it" edge nothing was injected
+					if neg {
+						next = b.Succs[:1]
+					} else {
+						next = b.Succs[1:]
+					}
+				}
+				for _, s := range next {
+					if !seen[s] {
+						seen[s] = true
+						walk(s, 0)
+					}
+				}
+				return
+			}
+		}
+		for _, s := range b.Succs {
+			if !seen[s] {
+				seen[s] = true
+				walk(s, 0)
+			}
+		}
+	}
+	walk(set.Block(), instrIndex(set)+1)
+	if leak {
+		return false, ""
+	}
+	return true, "temporary: removed again (" + unset.Name() + ") on every path to a return, except where a lookup before the store showed the host had set it"
 }
 
 func mustAnchorRun(p *Program) *ssa.Function {
